@@ -34,12 +34,33 @@ func c14(c *Ctx) {
 	c06R4(c, "R4/C06.R4")
 	sDispatch(c, "R5/S-DISPATCH")
 	c16R1(c, "R5/C16.R1")
+	sHigher(c, "R6/S-HIGHER")
+	sMainOwned(c, "R7/S-OWNER", "leaderState", "configurations")
 }
 
 func c14R2(c *Ctx, rule string) {
 	fn := c.Fn(rule, "(*Raft).runCandidate")
 	if fn == nil {
 		return
+	}
+	// a pre-vote round counts only answers to ITS OWN requests: the channel the
+	// per-peer goroutines report into is made in this call, so a grant that
+	// arrives late from an earlier round has nowhere to go but the old channel
+	if pf := c.Fn(rule, "(*Raft).preElectSelf"); pf != nil {
+		k := 0
+		for _, ret := range engine.ReturnsOf(pf) {
+			if len(ret.Results) == 1 {
+				d := c.P.D(engine.ReturnValues(ret)[0])
+				if d == "nil" {
+					continue
+				}
+				k++
+				c.Check(rule, "preElectSelf:fresh-result-channel", c.P.InstrPos(ret), "the result channel is made in this call (no pre-votes carried over from an earlier round)", strings.HasPrefix(d, "make(chan *preVoteResult"), "returns "+d, 1)
+			}
+		}
+		if k == 0 {
+			c.Bad(rule, "preElectSelf:fresh-result-channel", c.P.Pos(pf.Pos()), "a return of the result channel", "none found")
+		}
 	}
 	sites := c.P.CallsIn(fn, engine.Is("(*Raft).electSelf"))
 	c.WhoMay(rule, "call (*Raft).electSelf", c.P.CallsEverywhere(engine.Is("(*Raft).electSelf")), map[string]string{"(*Raft).runCandidate": "the only place a candidate bumps its term"})
